@@ -13,7 +13,7 @@ import (
 
 func init() {
 	register(&propDef{ID: "C18", Run: runC18,
-		Explain: "Structural necessary conditions of 'static route lookup has fixed precedence and a stable answer', decided on SSA/CFG of /repo: (1) precedence: in FindRoute the exact-hit return is guarded by the comma-ok of items[dest] and returns that item's protocol/host/port; the wildcard scan is reachable only when the exact lookup missed; the `default` lookup happens only after the scan is exhausted; the error return comes last; a scan hit requires matched==true and returns the matching item's fields; (2) deterministic: no function in the package leaves a range over a map early with a result that depends on the iteration variables (a built-in positive example must be recognised on every run); (3) next-hop-port: NewPreRouteItem splits at the last ':', an explicit port is Atoi of the remainder with the error propagated, otherwise 5061 only under EqualFold(\"tls\", protocol) and 5060 else; (4) pattern-translation: every regular expression used for static routes is produced by a translator that anchors the pattern (^...$) and escapes '.' before expanding '*', and is matched against the looked-up host.",
+		Explain:    "Structural necessary conditions of 'static route lookup has fixed precedence and a stable answer', decided on SSA/CFG of /repo: (1) precedence: in FindRoute the exact-hit return is guarded by the comma-ok of items[dest] and returns that item's protocol/host/port; the wildcard scan is reachable only when the exact lookup missed; the `default` lookup happens only after the scan is exhausted; the error return comes last; a scan hit requires matched==true and returns the matching item's fields; (2) deterministic: no function in the package leaves a range over a map early with a result that depends on the iteration variables (a built-in positive example must be recognised on every run); (3) next-hop-port: NewPreRouteItem splits at the last ':', an explicit port is Atoi of the remainder with the error propagated, otherwise 5061 only under EqualFold(\"tls\", protocol) and 5060 else; (4) pattern-translation: every regular expression used for static routes is produced by a translator that anchors the pattern (^...$) and escapes '.' before expanding '*', and is matched against the looked-up host.",
 		NotDecided: "regular-expression semantics for patterns containing other metacharacters (outside the stated domain)."})
 }
 
@@ -156,6 +156,91 @@ func runC18(c *Ctx) {
 	}
 	c18NextHopPort(c)
 	c18Pattern(c)
+	c18Table(c)
+}
+
+// c18Table: a configured route is filed under exactly the destination it was configured with: AddRouteItem builds the
+// item from its three arguments unmodified, stores it under the unmodified destination, and records a destination
+// seen for the first time once in the ordered list; the constructor keeps protocol and destination as given.
+func c18Table(c *Ctx) {
+	w := c.w
+	rule := "precedence"
+	f := c.fn(rule, "(*PreConfigRoute).AddRouteItem")
+	if f == nil {
+		return
+	}
+	var mk ssa.CallInstruction
+	for _, cs := range w.callsIn(f, "NewPreRouteItem") {
+		mk = cs.In
+	}
+	if mk == nil {
+		c.bad(rule, "AddRouteItem/item", w.pos(f.Pos()), "AddRouteItem does not build its entry with NewPreRouteItem")
+		return
+	}
+	c.check(isParam(f, callArg(mk, 0), 1) && isParam(f, callArg(mk, 1), 2) && isParam(f, callArg(mk, 2), 3), rule, "AddRouteItem/item", w.ipos(mk), "the entry is built from (protocol, dest, nextHop) as configured", "AddRouteItem does not hand its arguments (protocol, dest, nextHop) unmodified to NewPreRouteItem: a destination is rewritten before it is filed (e.g. '*' turned into 'default'), so two configured destinations share one slot or a host loses its exact match")
+	var upd *ssa.MapUpdate
+	n := 0
+	eachInstr(f, func(in ssa.Instruction) {
+		if mu, ok := in.(*ssa.MapUpdate); ok {
+			if _, isT := isLoadOf(mu.Map, "PreConfigRoute.items"); isT {
+				upd = mu
+				n++
+			}
+		}
+	})
+	good := false
+	why := "no single store into the table"
+	if upd != nil && n == 1 {
+		keep := w.under(assumeAtom(errNil(mk), true))
+		mn, mx, inf := countSites(entryPt(f), keep, isInstr(upd))
+		good = mn == 1 && mx == 1 && !inf && isParam(f, upd.Key, 2) && isResultOf(upd.Value, mk, 0) && w.requires(f, upd, errNil(mk), true)
+		why = fmt.Sprintf("key %s, value %s, executed min=%d max=%d times for a valid entry", w.termKey(upd.Key), w.termKey(upd.Value), mn, mx)
+	}
+	c.check(good, rule, "AddRouteItem/filed-under-dest", w.pos(f.Pos()), "items[dest] = the new entry, once, for every valid entry", "AddRouteItem does not file a valid entry exactly once under its unmodified destination ("+why+")")
+	// ordered list: first sight only, the same unmodified destination
+	okList := false
+	for _, st := range w.fieldStores(f, "PreConfigRoute.dests") {
+		if !isAppendOne(st.Val, "PreConfigRoute.dests") {
+			continue
+		}
+		ap := strip(st.Val).(*ssa.Call)
+		elems := varargs(ap.Call.Args[1])
+		if len(elems) != 1 || !isParam(f, elems[0], 2) {
+			continue
+		}
+		var lk *ssa.Lookup
+		eachInstr(f, func(in ssa.Instruction) {
+			if l, ok := in.(*ssa.Lookup); ok && l.CommaOk {
+				if _, isT := isLoadOf(l.X, "PreConfigRoute.items"); isT && isParam(f, l.Index, 2) {
+					lk = l
+				}
+			}
+		})
+		if lk == nil {
+			continue
+		}
+		present := func(a Atom) bool {
+			e, isE := a.X.(*ssa.Extract)
+			return a.Kind == "bool" && isE && e.Tuple == ssa.Value(lk) && e.Index == 1
+		}
+		keep := w.under(assumeAtom(errNil(mk), true), assumeAtom(present, false))
+		mn, mx, _ := countSites(entryPt(f), keep, isInstr(st))
+		okList = mn == 1 && mx == 1 && w.requires(f, st, present, false) && mustPrecede(f, []ssa.Instruction{lk}, upd, nil)
+	}
+	c.check(okList, rule, "AddRouteItem/ordered-once", w.pos(f.Pos()), "a destination seen for the first time is appended once to the ordered list", "AddRouteItem does not append a destination to the configuration-order list exactly when it is not yet in the table (tested before the entry is stored)")
+	if nf := c.fn(rule, "NewPreRouteItem"); nf != nil {
+		okF := 0
+		for _, fs := range []struct {
+			ref string
+			p   int
+		}{{"PreRouteItem.protocol", 0}, {"PreRouteItem.dest", 1}} {
+			sts := w.fieldStores(nf, fs.ref)
+			if len(sts) == 1 && isParam(nf, sts[0].Val, fs.p) {
+				okF++
+			}
+		}
+		c.check(okF == 2, rule, "NewPreRouteItem/keeps-protocol-and-dest", w.pos(nf.Pos()), "protocol and destination are kept as configured", "NewPreRouteItem does not keep its protocol and dest arguments unmodified in the entry")
+	}
 }
 
 func itemFieldsOf(w *World, r *ssa.Return, item func(ssa.Value) bool) bool {
